@@ -20,7 +20,7 @@ MAX_PATHS = int(os.environ.get("PYVC_MAX_PATHS", "4000"))
 class FunctionResult:
     def __init__(self, contract: Contract):
         self.file = contract.file
-        self.qualname = contract.qualname
+        self.qualname = contract.qualname + ("#" + contract.variant if contract.variant else "")
         self.paths = 0
         self.terminal_paths = 0
         self.obligations: list = []     # dicts (plain data)
@@ -56,7 +56,10 @@ def verify_function(eng: Exec, c: Contract, recheck_cvc5=False, model_hook=None)
     res = FunctionResult(c)
     t0 = time.time()
     try:
-        fi = eng.fe.func(c.file, c.qualname)
+        if c.lemma_src is not None:
+            fi = eng.fe.lemma_func(c)
+        else:
+            fi = eng.fe.func(c.file, c.qualname)
     except (KeyError, FileNotFoundError, OSError, SyntaxError, ImportError) as e:
         res.status = "undecided"
         res.reason = "function not found: %s" % e
